@@ -32,6 +32,8 @@ def profile(r, tier, index):
     }
     if conc:
         prof["compare"] = False
+    else:
+        prof["probe_p"] = r.choice((1.0, 1.0, 0.35, 0.1))
     return prof
 
 
